@@ -261,11 +261,14 @@ func cmdCheck(args []string) int {
 						toBuild = append(toBuild, buildJob{u, o.obl, ""})
 						continue
 					}
+					// Every obligation of a function under contract is discharged on the unchanged tree (that is
+					// what the committed baseline records). An obligation that cannot be discharged therefore means
+					// the contract is no longer proved; it is reported, with whatever the replay can show.
 					if base.Obligations[o.Name] == "discharged" {
 						toBuild = append(toBuild, buildJob{u, o.obl, "obligation was discharged on the unchanged tree and is now undecided (" + rr.Status + "); "})
 					} else {
 						notProved = append(notProved, o.Name+": "+o.Detail)
-						fmt.Printf("NOT-PROVED property=%s obligation=%q (%s; not in the baseline, not counted as a violation)\n", cfg.ID, o.Name, rr.Status)
+						toBuild = append(toBuild, buildJob{u, o.obl, "obligation does not exist in the baseline of the unchanged tree (the code of this function changed) and the solvers could not decide it (" + rr.Status + "); "})
 					}
 				}
 			}
